@@ -1,6 +1,7 @@
 package main
 
 import (
+	"go/types"
 	"encoding/json"
 	"flag"
 	"fmt"
@@ -52,6 +53,11 @@ type Kernel struct {
 	Outside         string                    `json:"outside"`
 	ExpectReach     []string                  `json:"expect_reach"`
 	Validate        [][]uint64                `json:"validate"` // concrete vectors for translator validation
+	// ExpectFields: "import/path.Type" -> field names the harness classifies
+	// (compares or deliberately exempts). The struct in the current tree must
+	// have exactly these fields; otherwise the run is incomplete (a field was
+	// added or removed and the harness has to be taught about it).
+	ExpectFields map[string][]string `json:"expect_fields"`
 }
 
 type KernelFile struct {
@@ -249,6 +255,11 @@ func runKernel(ld *Loaded, k *Kernel, tier string, workers int, solverKind strin
 		res.Stats = newPathStats()
 		return res
 	}
+	for tname, want := range k.ExpectFields {
+		if msg := checkStructFields(ld, tname, want); msg != "" {
+			res.Incomplete[msg] = 1
+		}
+	}
 	stubs := map[string]*ssa.Function{}
 	for realName, hname := range k.Stubs {
 		f := pkg.Func(hname)
@@ -311,6 +322,46 @@ func runKernel(ld *Loaded, k *Kernel, tier string, workers int, solverKind strin
 	}
 	res.WallS = time.Since(t0).Seconds()
 	return res
+}
+
+// checkStructFields compares the fields of a struct type of the current tree
+// with the list the harness was written for.
+func checkStructFields(ld *Loaded, tname string, want []string) string {
+	dot := strings.LastIndexByte(tname, '.')
+	if dot < 0 {
+		return "field coverage: bad type name " + tname
+	}
+	p := ld.pkgs[tname[:dot]]
+	if p == nil {
+		return "field coverage: package not loaded for " + tname
+	}
+	obj := p.Pkg.Scope().Lookup(tname[dot+1:])
+	if obj == nil {
+		return "field coverage: type not found: " + tname
+	}
+	st, ok := obj.Type().Underlying().(*types.Struct)
+	if !ok {
+		return "field coverage: not a struct: " + tname
+	}
+	have := map[string]bool{}
+	for i := 0; i < st.NumFields(); i++ {
+		have[st.Field(i).Name()] = true
+	}
+	var extra, missing []string
+	for _, w := range want {
+		if !have[w] {
+			missing = append(missing, w)
+		}
+		delete(have, w)
+	}
+	for h := range have {
+		extra = append(extra, h)
+	}
+	sort.Strings(extra)
+	if len(extra) > 0 || len(missing) > 0 {
+		return fmt.Sprintf("field coverage: %s changed: fields not classified by the harness %v, fields that no longer exist %v", tname, extra, missing)
+	}
+	return ""
 }
 
 // runConcrete interprets the harness on a concrete input vector.
